@@ -4,6 +4,7 @@ package main
 // records one ndjson line per operation with the projected pre- and post-state.
 
 import (
+	"unicode/utf8"
 	"encoding/json"
 	"fmt"
 	"math/rand"
@@ -36,6 +37,7 @@ type cacheSnap struct {
 	Used   int     `json:"used"`
 	Cap    int     `json:"cap"`
 	Last   vtok    `json:"last"`
+	Badutf bool    `json:"badutf"` // some cached value is not valid UTF-8
 }
 
 type cacheOp struct {
@@ -79,6 +81,9 @@ func snapCache(ca *cache.Cache) cacheSnap {
 	for _, fr := range ca.Cache {
 		row := []kvv{}
 		for k, v := range fr {
+			if !utf8.ValidString(v) {
+				s.Badutf = true
+			}
 			t := tokenOf(v)
 			row = append(row, kvv{k, t.Id, t.Len})
 		}
